@@ -30,9 +30,9 @@ vfps::FreeSpaceCSR::__calcImpedance(const size_t n,
     constexpr impedance_t Z0 = impedance_t(306.3,176.9);
 
     // frequency resolution: impedance will be sampled at multiples of delta
-    const frequency_t delta = f_max/f_rev/(n-1);
+    const frequency_t delta = (n > 1) ? f_max/f_rev/(n-1) : 0;
 
-    for (size_t i=0; i<=n/2; i++) {
+    for (size_t i=0; i<=n/2 && i<n; i++) {
         rv.push_back(Z0*std::pow(i*delta,csrpower_t(1.0/3.0)));
     }
     for (size_t i=n/2+1; i<n; i++) {
